@@ -55,6 +55,9 @@ type Case struct {
 	Mode    int     `json:"mode,omitempty"`
 	// quote cases
 	Trailing bool `json:"trailing,omitempty"`
+	// key format / fixed-size helper cases: index of the format, number of values
+	Fmt   int `json:"fmt,omitempty"`
+	NVals int `json:"nvals,omitempty"`
 	// search stream
 	Target string `json:"target,omitempty"`
 	// provenance (not needed for replay)
@@ -259,8 +262,19 @@ type outcome struct {
 }
 
 func runModelCase(c Case) (o outcome) {
-	if c.Kind == "quote" {
+	switch c.Kind {
+	case "quote":
 		return runQuoteCase(c)
+	case "keyformat":
+		return runKeyFormatCase(c)
+	case "fixed":
+		return runFixedCase(c)
+	case "iasquote":
+		return runIasQuoteCase(c)
+	case "chunk":
+		return runChunkCase(c)
+	case "cbor":
+		return runCborCase(c)
 	}
 	data := unhex(c.Data)
 	var in, out string
@@ -889,7 +903,8 @@ func main() {
 }
 
 func runModel(seed uint64, n int, out string, rc *Case) {
-	hdr := "From Verif Require Import Lib.Base Decode.GoSlice Decode.Node Decode.ProofEntries Decode.Quote Decode.Cases.\n"
+	initKeyFormats()
+	hdr := "From Verif Require Import Lib.Base Decode.GoSlice Decode.Node Decode.ProofEntries Decode.Quote Decode.KeyFormat Decode.Misc Decode.Cbor Decode.Cases.\n"
 	wb := coqout.NewWriter(out, hdr, "run_case", "cout_eqb", 150)
 	sum := coqout.NewSummary("per decoder (Depth/Key/LeafNode/InternalNode.SizedUnmarshalBinary, node.UnmarshalBinary, verifyProof walk via hook, VerifyProof): 30% valid encodings made by the real marshalers (full, compact v0, compact v1), 25% length-field mutants (0, +-1, max, len, +k, 2^31, random), 15% truncations at field boundaries, 18% generic mutations (bit flips, kind bytes, splices, appended garbage), 12% random bytes; proof entry lists: random pre-order subtrees for v0/v1, chains of depth 126..200, list mutations (drop/extra/empty/kind/truncate/swap/unsupported version); encoders on random nodes. distinct = distinct (kind, input); non-trivial = the real decoder accepted the input (Ok) or the real encoder produced bytes")
 	var cases []Case
@@ -897,7 +912,7 @@ func runModel(seed uint64, n int, out string, rc *Case) {
 		cases = []Case{*rc}
 	} else {
 		r := prng.New(seed)
-		kinds := []string{"depth", "key", "leaf", "leaf", "inode", "inode", "inode", "node", "node", "walk", "walk", "proof", "proof", "enc", "quote", "quote", "quote"}
+		kinds := []string{"depth", "key", "leaf", "leaf", "inode", "inode", "inode", "node", "node", "walk", "walk", "proof", "proof", "enc", "quote", "quote", "quote", "keyformat", "keyformat", "fixed", "iasquote", "chunk", "cbor", "cbor", "cbor"}
 		loadQuoteSeeds()
 		// fixed boundary cases first
 		for _, h := range []string{"", "00", "01", "0140", "014000aabb", "01000002", "0100000200", "00010007ffffffff0102", "000000000000", "0000000000000000"} {
@@ -927,6 +942,16 @@ func runModel(seed uint64, n int, out string, rc *Case) {
 				cases = append(cases, genEncCase(rr))
 			case "quote":
 				cases = append(cases, genQuoteCase(rr))
+			case "keyformat":
+				cases = append(cases, genKeyFormatCase(rr))
+			case "fixed":
+				cases = append(cases, genFixedCase(rr))
+			case "iasquote":
+				cases = append(cases, genIasQuoteCase(rr))
+			case "chunk":
+				cases = append(cases, genChunkCase(rr))
+			case "cbor":
+				cases = append(cases, genCborCase(rr))
 			default:
 				cases = append(cases, genDecodeCase(rr, k))
 			}
@@ -937,7 +962,7 @@ func runModel(seed uint64, n int, out string, rc *Case) {
 	for _, c := range cases {
 		o := runModelCase(c)
 		sum.Evaluations++
-		key := c.Kind + ":" + c.Data + fmt.Sprint(c.Trailing, c.V, c.BadRoot, c.Key, c.Value, c.Label, c.Lbl, c.Mode) + strings.Join(func() []string {
+		key := c.Kind + ":" + c.Data + fmt.Sprint(c.Fmt, c.NVals, c.Trailing, c.V, c.BadRoot, c.Key, c.Value, c.Label, c.Lbl, c.Mode) + strings.Join(func() []string {
 			var s []string
 			for _, e := range c.Entries {
 				if e == nil {
